@@ -418,7 +418,7 @@ theorem delete_absent_noop_list (s : Side) (ls us : List Level)
 payload strictly ordered and free of zero amounts — is a documented PRECONDITION, not something the
 code establishes: the only producer of snapshots is the Binance HTTP depth snapshot, which goes
 unvalidated into `OrderBook::new` (`exchange/binance/book/l2.rs:84`), and the constructor only sorts
-(`sort_unstable_by`, `books/mod.rs:148-157`): no dedup, no zero filter. For the history
+(`sort_by` since fix 911b9f8, `books/mod.rs:148-157`): no dedup, no zero filter. For the history
 `[Snapshot ⟨1, bids [100:1, 100:2], asks []⟩, Update ⟨2, bids [100:0], asks []⟩]` (the snapshot is
 what `OrderBook::new` stores for these levels; it is outside `WFEvents`): after the snapshot the
 price 100 appears twice; after the delete of 100 the model's bids are `[100:2]`, while the
